@@ -225,7 +225,8 @@ impl<'a> Writer<'a> {
     }
 
     fn write_name(&mut self, name: Option<&BStr>) -> io::Result<()> {
-        const MISSING: &[u8] = &[b'*', 0x00];
+        // The trailing NUL is the stop byte of the names encoding and is added by it.
+        const MISSING: &[u8] = b"*";
 
         let buf = name.map(|s| s.as_ref()).unwrap_or(MISSING);
 
